@@ -18,7 +18,7 @@ import fsic
 from fsic.exceptions import NonConvergenceError, SolutionError
 
 MULTI = 99
-KINDS = ['range', 'range0', 'listfalsy', 'listfloat', 'liststr', 'listmixed', 'npint', 'npdesc', 'npperm', 'npstr', 'pdindex', 'pdperiodA', 'pdperiodQ', 'pddatetime']
+KINDS = ['range', 'range0', 'rangeneg', 'listfalsy', 'listfloat', 'liststr', 'listmixed', 'npint', 'npdesc', 'npperm', 'npstr', 'pdindex', 'pdperiodA', 'pdperiodQ', 'pddatetime']
 
 
 class ScriptedError(Exception):
@@ -30,6 +30,8 @@ def make_span(kind, L):
         return range(1000, 1000 + L)
     if kind == 'range0':
         return range(0, L)  # the first label is 0 (falsy)
+    if kind == 'rangeneg':
+        return range(-2, L - 2)  # event time: labels -2, -1, 0, 1, ... (a negative label is a label, not a position from the end)
     if kind == 'listfalsy':
         return [''] + [f'b{i}' for i in range(1, L)] if L else []
     if kind == 'listfloat':
@@ -67,7 +69,7 @@ def label_of(kind, span, L, lab):
         if kind == 'pdperiodQ' and L >= 2:
             return '2000', True  # a year in a quarterly index: resolves to a slice
         return None, False
-    absent = {'range': 5, 'range0': 999, 'listfalsy': 'nope', 'listfloat': 99.25, 'liststr': 'nope', 'listmixed': ('t', 99), 'npint': 5, 'npdesc': 5, 'npperm': 5, 'npstr': 'nope', 'pdindex': 'nope',
+    absent = {'range': 5, 'range0': 999, 'rangeneg': 999, 'listfalsy': 'nope', 'listfloat': 99.25, 'liststr': 'nope', 'listmixed': ('t', 99), 'npint': 5, 'npdesc': 5, 'npperm': 5, 'npstr': 'nope', 'pdindex': 'nope',
               'pdperiodA': pd.Period('1990', freq='Y'), 'pdperiodQ': pd.Period('1990Q1', freq='Q'),
               'pddatetime': pd.Timestamp('1990-01-01')}[kind]
     return absent, True
@@ -427,7 +429,7 @@ def main():
                 out['skipped'] += 1
                 continue
             out['n'] += 1
-            if (idx + len(kind)) % 4 == 1 and kind not in ('range0', 'listfalsy', 'listfloat'):
+            if (idx + len(kind)) % 4 == 1 and kind not in ('range0', 'rangeneg', 'listfalsy', 'listfloat'):
                 # the same behaviour on an object with a history (solved, then reindexed)
                 global VIA_REINDEX
                 VIA_REINDEX = True
